@@ -91,7 +91,9 @@ RefPoint(K, ms, n) ==
 (* empty buckets count towards the size limit only), either neighbour for a     *)
 (* value at float-rounding distance from an irrational boundary; min/max/sum of *)
 (* an exponential point are not in the statement: checked as neighbouring       *)
-(* behaviour, over the held values or over all recorded ones.                   *)
+(* behaviour, over the held values or over all recorded ones.  nominmax: the     *)
+(* stream is configured not to collect extrema and must report none (-2);       *)
+(* nosum: it collects no sum and reports the zero value (o.sumz).               *)
 ObsCount(off, counts, i) == IF i >= off /\ i < off + Len(counts) THEN counts[i - off + 1] ELSE 0
 
 IdxOf(v, s, useAlt) == Idx(IF useAlt THEN v.alt ELSE v.b, s)
@@ -110,7 +112,7 @@ Placed(o, K) ==
      /\ PlacedSign(K, S, 1, o.scale, o.poff, o.pos)
      /\ PlacedSign(K, S, -1, o.scale, o.noff, o.neg)
 
-ExpoClauses(o, H, ms, n, prev, quant) ==
+ExpoClauses(o, H, ms, n, prev, quant, nosum, nominmax) ==
   LET K == Keep(H, n) IN
   IF H = <<>> THEN (IF o.present THEN {"present"} ELSE {})
   ELSE IF ~o.present THEN {"absent"}
@@ -121,8 +123,9 @@ ExpoClauses(o, H, ms, n, prev, quant) ==
        \cup (IF o.zero # Cardinality(Pick(K, 0)) THEN {"zero"} ELSE {})
        \cup (IF o.scale \in -40..TopScale /\ ~Placed(o, K) THEN {"placement"} ELSE {})
        \cup (IF o.count # Len(K) THEN {"count"} ELSE {})
-       \cup (IF o.min \notin {MinR(K), MinR(H)} THEN {"min"} ELSE {})
-       \cup (IF o.max \notin {MaxR(K), MaxR(H)} THEN {"max"} ELSE {})
-       \cup (IF quant THEN (IF o.sumq \notin {SumK(K), SumK(H)} THEN {"sum"} ELSE {})
+       \cup (IF o.min \notin (IF nominmax THEN {-2} ELSE {MinR(K), MinR(H)}) THEN {"min"} ELSE {})
+       \cup (IF o.max \notin (IF nominmax THEN {-2} ELSE {MaxR(K), MaxR(H)}) THEN {"max"} ELSE {})
+       \cup (IF nosum THEN (IF ~o.sumz THEN {"sum"} ELSE {})
+             ELSE IF quant THEN (IF o.sumq \notin {SumK(K), SumK(H)} THEN {"sum"} ELSE {})
              ELSE (IF Len(K) = Len(H) /\ ~o.sumok THEN {"sum"} ELSE {}))
 =============================================================================
